@@ -82,6 +82,36 @@ def global_state_scan(chk, repo, classes=FOOTPRINT_CLASSES, modules=None):
         chk.add_lemma("global-state:module:%s" % rel, "proved" if not bad else "refuted", "syntactic-scan", 0.0,
                       clause="no function of %s writes module-level or class-level state" % rel, func=rel,
                       model=None if not bad else {"sites": bad[:10]})
+        # frame: the user's Problem and SolverParameters objects are shared between solvers (one problem solved with
+        # several parameter sets, one parameter object for several solvers): no solver code may write into them
+        shared = []
+        for fn in ast.walk(mi.tree):
+            if not isinstance(fn, ast.FunctionDef):
+                continue
+            for n in ast.walk(fn):
+                tgt = None
+                if isinstance(n, (ast.Attribute, ast.Subscript)) and isinstance(n.ctx, (ast.Store, ast.Del)):
+                    tgt = n.value
+                elif isinstance(n, ast.Call) and isinstance(n.func, ast.Name) and n.func.id in ("setattr", "delattr") and n.args:
+                    tgt = n.args[0]
+                elif isinstance(n, ast.Call) and isinstance(n.func, ast.Attribute) and n.func.attr in (
+                        "append", "extend", "insert", "pop", "remove", "clear", "update", "setdefault", "sort", "fill"):
+                    tgt = n.func.value
+                if tgt is None:
+                    continue
+                # walk down the access path: does it go through `problem` / `parameters`?
+                t, through = tgt, False
+                while isinstance(t, (ast.Attribute, ast.Subscript)):
+                    if isinstance(t, ast.Attribute) and t.attr in ("problem", "parameters"):
+                        through = True
+                    t = t.value
+                if isinstance(t, ast.Name) and t.id in ("problem", "parameters"):
+                    through = True
+                if through:
+                    shared.append("%s:%d %s writes %s" % (rel, n.lineno, fn.name, ast.unparse(tgt)[:80]))
+        chk.add_lemma("frame:shared-user-objects:%s" % rel, "proved" if not shared else "refuted", "syntactic-scan", 0.0,
+                      clause="no function of %s writes into the user's Problem / SolverParameters objects (shared between "
+                             "solvers)" % rel, func=rel, model=None if not shared else {"sites": shared[:10]})
 
 
 def attribute_store_sites(repo, attr):
